@@ -1,6 +1,7 @@
 import SpdxVerif.Props.C01
 import SpdxVerif.Props.Consts
 import SpdxVerif.Props.C01Text
+import SpdxVerif.Props.C01Heap
 #print axioms Spdx.C01.verdict_eq_eval
 #print axioms Spdx.C01.verdictBy_eq_eval
 #print axioms Spdx.C01.verdict_iff_alternative_covered
@@ -15,3 +16,9 @@ import SpdxVerif.Props.C01Text
 #print axioms Spdx.C01.and_or_text
 #print axioms Spdx.C01.paren_or_and_text
 #print axioms Spdx.C07.satisfies_eq
+#print axioms Spdx.C01.heap_expand_refines
+#print axioms Spdx.C01.heap_expand_refines_any_heap
+#print axioms Spdx.C01.heap_expand_separated
+#print axioms Spdx.C01.heap_expand_sorted_refines
+#print axioms Spdx.C01.heap_expand_eq_expand
+#print axioms Spdx.C01.expansion_allocs_exact
